@@ -150,6 +150,8 @@ func concurrent(ops []probeOp, n, rounds int, seed int64, groups int) {
 		Err    bool   `json:"err"`
 		// every object reachable from the result (arguments, fields, decorator payloads): "origin#serial"
 		Inner []string `json:"inner,omitempty"`
+		// address of a pointer result (identity of objects that no counting constructor made)
+		Ptr string `json:"ptr,omitempty"`
 	}
 	var collect func(v interface{}, depth int, acc *[]string)
 	collect = func(v interface{}, depth int, acc *[]string) {
@@ -180,6 +182,7 @@ func concurrent(ops []probeOp, n, rounds int, seed int64, groups int) {
 		}
 	}
 	results := make([][]obsv, n)
+	keep := make([][]interface{}, n) // every result stays reachable until the end: addresses are identities only among live objects
 	start := make(chan struct{})
 	var wg sync.WaitGroup
 	for g := 0; g < n; g++ {
@@ -228,13 +231,19 @@ func concurrent(ops []probeOp, n, rounds int, seed int64, groups int) {
 					if o.Op == "getctx" || o.Op == "taggedctx" {
 						collect(v, 0, &inner)
 					}
-					results[g] = append(results[g], obsv{G: g, Op: o.Op, Name: o.Name, Serial: ser, Err: err != nil, Inner: inner})
+					keep[g] = append(keep[g], v)
+					ptr := ""
+					if rv := reflect.ValueOf(v); v != nil && rv.Kind() == reflect.Ptr && !rv.IsNil() {
+						ptr = fmt.Sprintf("%p", v)
+					}
+					results[g] = append(results[g], obsv{G: g, Op: o.Op, Name: o.Name, Serial: ser, Err: err != nil, Inner: inner, Ptr: ptr})
 				}
 			}
 		}(g)
 	}
 	close(start)
 	wg.Wait()
+	defer func() { _ = len(keep) }()
 	inv := map[string]int64{}
 	for k, p := range Invocations {
 		inv[k] = *p
